@@ -29,6 +29,8 @@ type elObj struct {
 	gaugeSet          bool
 	lastTo            string
 	afterStart        bool
+	nTrans            int // transitions recorded by this object
+	startInFlight     int // Start calls of this object that have not returned yet
 	terms             int
 	demoteReg         bool   // OnDemote is registered
 	demoteRegStep     uint64 // ... since this driver step (0 = before Start)
@@ -206,6 +208,7 @@ func (m *obsMetrics) IncTransitions(l prometheus.Labels) {
 	d.logf("trans i%d.%d %s->%s", o.in.idx, o.gen, from, to)
 	d.checkTransition(o, from, to)
 	o.lastTo = to
+	o.nTrans++
 	o.afterStart = false
 }
 func (m *obsMetrics) IncFailures(prometheus.Labels)                             {}
@@ -514,12 +517,21 @@ func (d *Driver) apiCall(in *Inst, o *elObj, a *Action, ev *ApiEvt) {
 		ctx := context.Background()
 		var cancel context.CancelFunc
 		ctx, cancel = context.WithCancel(ctx)
+		// Start moves the state to CANDIDATE without recording a transition; the run's first
+		// recorded transition may come before Start has returned to its caller
+		d.mu.Lock()
+		transBefore := o.nTrans
+		o.startInFlight++
+		d.mu.Unlock()
 		err = o.el.Start(ctx)
 		d.mu.Lock()
+		o.startInFlight--
+		if err == nil && o.nTrans == transBefore {
+			o.afterStart = true // the run's first transition is still to come
+		}
 		if err == nil {
 			o.cancelStart = cancel
 			o.started = true
-			o.afterStart = true
 			in.running = true
 			in.stopRetStep = 0
 			in.opsAfterStop = nil
